@@ -10,6 +10,7 @@ import Ekit.Lemmas.RBPtrAdd
 import Ekit.Lemmas.RBPtrDelete
 import Ekit.Lemmas.RBPtrSucc
 import Ekit.Lemmas.RBPtrFix
+import Ekit.Lemmas.RBPtrSize
 
 namespace Ekit.MiniGo.RBHeap
 open Ekit.MiniGo Ekit.Gen.RBTreeGo
@@ -241,5 +242,95 @@ theorem ordwf_set (fuel : Nat) (k v : Int) (st : St) (r : Val) (st' : St) (hW : 
   obtain ⟨t, hH, hO⟩ := hW
   obtain ⟨t1, H1, S1, _⟩ := call_specK cmpF fuel .Set rfl [Val.int k, Val.int v] st r st' t hH (by simp [PtrIn]) h
   exact ⟨t1, H1, S1.ordered hO⟩
+
+/-! ### size = node count -/
+
+/-- the pointer-level invariant with the size counter -/
+def SizeWF (st : St) : Prop := ∃ t, Holds st t ∧ st.size = (t.addrs.length : Int)
+
+theorem leafSpec_holds : ∀ fuel x st v st' t, Holds st t → x ∈ t.addrs → (st.h x).left = none → (st.h x).right = none →
+    (st.h x).parent ≠ none → call cmpF procs fuel .fixAfterDelete [.ptr (some x)] st = .ok (v, st') →
+    (st'.h x).left = none ∧ (st'.h x).right = none :=
+  fun fuel x st v st' t hH hx hl hr hp h =>
+    Fix.fixAfterDelete_keeps_leaf cmpF (call_specK cmpF) fuel x st v st' t hH hx hl hr hp h
+
+theorem sizewf_k (fuel : Nat) (fn : PName) (hk : isK fn = true) (hn : isNoSize fn = true) (args : List Val)
+    (hargs : ∀ x ∈ args, ∀ A, PtrIn A x) (st : St) (r : Val) (st' : St) (hW : SizeWF st)
+    (h : call cmpF procs fuel fn args st = .ok (r, st')) : SizeWF st' := by
+  obtain ⟨t, hH, hs⟩ := hW
+  obtain ⟨t1, H1, S1, _⟩ := call_specK cmpF fuel fn hk args st r st' t hH (fun x hx => hargs x hx _) h
+  exact ⟨t1, H1, by rw [call_nosize cmpF fuel fn hn args st r st' h, hs, S1.addrs]⟩
+
+theorem sizewf_find (fuel : Nat) (k : Int) (st : St) (r : Val) (st' : St) (hW : SizeWF st)
+    (h : call cmpF procs fuel .Find [.int k] st = .ok (r, st')) : SizeWF st' :=
+  sizewf_k cmpF fuel .Find rfl rfl _ (by intro x hx A; simp at hx; subst hx; trivial) st r st' hW h
+
+theorem sizewf_set (fuel : Nat) (k v : Int) (st : St) (r : Val) (st' : St) (hW : SizeWF st)
+    (h : call cmpF procs fuel .Set [.int k, .int v] st = .ok (r, st')) : SizeWF st' :=
+  sizewf_k cmpF fuel .Set rfl rfl _ (by intro x hx A; simp at hx; rcases hx with rfl | rfl <;> trivial) st r st' hW h
+
+theorem sizewf_add (fuel : Nat) (k v : Int) (st : St) (r : Val) (st' : St)
+    (hW : SizeWF st) (h : call cmpF procs fuel .Add [.int k, .int v] st = .ok (r, st')) : SizeWF st' := by
+  obtain ⟨t, hH, hs⟩ := hW
+  cases fuel with
+  | zero => simp [call] at h
+  | succ f =>
+    simp only [call, runBody, procs, body_Add, exec, evalE, Env.ofArgs, List.getD] at h
+    cases h1 : call cmpF procs f .newRBNode [Val.int k, Val.int v] st with
+    | error e => simp [h1] at h
+    | ok r1 =>
+      obtain ⟨x, st1⟩ := r1
+      simp [h1] at h
+      obtain ⟨n, rfl, _, _, H1, _⟩ := call_newRBNode cmpF f _ st x st1 t hH h1
+      have hs1 : st1.size = (t.addrs.length : Int) := by
+        rw [call_nosize cmpF f .newRBNode rfl _ st _ st1 h1, hs]
+      cases h2 : call cmpF procs f .addNode [Val.ptr (some n)] st1 with
+      | error e => simp [h2] at h
+      | ok r2 =>
+        obtain ⟨y, st2⟩ := r2
+        simp [h2] at h
+        obtain ⟨_, rfl⟩ := h
+        cases f with
+        | zero => simp [call] at h2
+        | succ g =>
+          exact AddN.addNode_size cmpF (call cmpF procs g) g (call_specK cmpF g) (call_newRBNode cmpF g)
+            (call_nosize cmpF g) n st1 y st2 t H1 hs1 h2
+
+theorem sizewf_delete (fuel : Nat) (k : Int) (st : St) (r : Val) (st' : St)
+    (hW : SizeWF st) (h : call cmpF procs fuel .Delete [.int k] st = .ok (r, st')) : SizeWF st' := by
+  obtain ⟨t, hH, hs⟩ := hW
+  cases fuel with
+  | zero => simp [call] at h
+  | succ f =>
+    simp only [call, runBody, procs, body_Delete, exec, evalE, Env.ofArgs, List.getD, Env.set] at h
+    cases h1 : call cmpF procs f .findNode [Val.int k] st with
+    | error e => simp [h1] at h
+    | ok r1 =>
+      obtain ⟨x, st1⟩ := r1
+      obtain ⟨t1, H1, S1, P1⟩ := call_specK cmpF f .findNode rfl [Val.int k] st x st1 t hH (by simp [PtrIn]) h1
+      have hs1 : st1.size = (t1.addrs.length : Int) := by
+        rw [call_nosize cmpF f .findNode rfl _ st _ st1 h1, hs, S1.addrs]
+      cases x with
+      | ptr p =>
+        cases p with
+        | none =>
+          simp [h1, valEq, Env.set] at h
+          obtain ⟨_, rfl⟩ := h
+          exact ⟨t1, H1, hs1⟩
+        | some a =>
+          simp [h1, valEq, Env.set] at h
+          cases h2 : call cmpF procs f .deleteNode [Val.ptr (some a)] st1 with
+          | error e => simp [h2] at h
+          | ok r2 =>
+            obtain ⟨y, st2⟩ := r2
+            simp [h2] at h
+            obtain ⟨_, rfl⟩ := h
+            cases f with
+            | zero => simp [call] at h2
+            | succ g =>
+              exact Del.deleteNode_size cmpF (call cmpF procs g) g (call_specK cmpF g)
+                (call_getColor_pure cmpF g) (call_findSuccessor cmpF g) (fixSpec_holds cmpF g) (leafSpec_holds cmpF g)
+                (call_nosize cmpF g) a st1 y st2 t1 H1 hs1 P1 h2
+      | _ => simp [h1, valEq, Env.set] at h
 
 end Ekit.MiniGo.RBHeap
